@@ -27,7 +27,10 @@ RULE = (
     "outside the search path, via Environment.get_template / get_template_async and via an include tag, for "
     "names built from the tree's own paths mutated with separators, '.', '..', absolute prefixes, NUL/control "
     "characters, unicode and lone surrogates, suffix dropping under every ext setting, 255/256/300-byte "
-    "components and >=4096-byte paths. Non-trivial: the name is not a plain hit of an ordinary file (it carries a "
+    "components and >=4096-byte paths, traversal/absolute names spelled with compatibility characters. stream cache: "
+    "CachingFileSystemLoader asked repeatedly (6..15 steps) while files are replaced by other files, inside links, "
+    "links to decoys, directories, or removed, with equal or different mtimes, auto_reload on/off, capacity 1..3, "
+    "sync or async, against the model's cachedRun. Non-trivial: the name is not a plain hit of an ordinary file (it carries a "
     "mutation, or goes through a link, or misses) for fsl/pkg; the path crosses a link or fails for fsprim; "
     "the string has a root, a dot component or a suffix decision for pathlib."
 )
@@ -41,13 +44,14 @@ TRUSTED_BASE = [
 ASSUMPTIONS = [
     "PackageLoader is modelled for a regular package on the file system (importlib.resources.files() is a PosixPath); zip/namespace packages are outside the model",
     "ext settings are those pathlib accepts as a suffix (FileSystemLoader's constructor enforces it; PackageLoader's does not, an invalid ext is a configuration error outside the property)",
+    "the caching theorems take namespace_key = '' (cache key = name) and one mode (sync or async) per loader instance; they promise containment of cached answers, not freshness (C23 covers transparency)",
     "without reject_symlinks a link inside the search path may legitimately lead out of it (the property only forbids it with rejection enabled); containment is then lexical (theorem fsl_resolved_inside) and physical only for link-free search directories (fsl_contents_inside_linkfree)",
     "permissions (EACCES), non-UTF-8 file contents and files changing during a load are outside the model; the sandbox has none",
     "POSIX only",
 ]
 MANIFEST = {
     "technique": "Lean 4 proof over all strings and all finite file systems (pathlib parsing, loader decision logic, link-following path walk) + differential correspondence on real sandbox trees with decoys and symlinks",
-    "text": "Theorems fsl_resolved_inside / pkg_resolved_inside (any returned path is search_dir/rel with rel non-empty, free of '..', '.', '' and '/'), fsl_contents_inside_rejecting (with reject_symlinks the bytes returned are those of a regular file that sits, link-free, below the directory the search path canonically denotes), *_contents_inside_linkfree (same without the flag when the search directory contains no links), fsl_only_not_found / pkg_only_not_found (the only exception is TemplateNotFoundError — ENAMETOOLONG, NUL, unencodable names, symlink loops included) hold for every name string and every finite file system; the pre-fix code is kept as Old.* with kernel-decided counter-examples (absolute name escapes the package, '' raises ValueError, a 256-byte name raises OSError).",
+    "text": "Deepening: ordinary_names_load / pkg_ordinary_names_load (completeness: an ordinary name whose file exists under a search directory loads exactly that file, first directory that has it), name_used_verbatim / pkg_name_used_verbatim (the returned path is search_dir + exactly Path(name)'s components, ext appended to a suffix-less last one: no folding or normalisation), str_round_trip / returned_name_parses_inside (Path(str(p)) = p, PackageLoader's joinpath(str(..)) modelled as written), cached_answers_are_past_answers / cached_contents_were_inside (CachingFileSystemLoader over any sequence of file-system changes only serves what get_source returned for the same name earlier; outside bytes are never served, staleness is possible and shown). Theorems fsl_resolved_inside / pkg_resolved_inside (any returned path is search_dir/rel with rel non-empty, free of '..', '.', '' and '/'), fsl_contents_inside_rejecting (with reject_symlinks the bytes returned are those of a regular file that sits, link-free, below the directory the search path canonically denotes), *_contents_inside_linkfree (same without the flag when the search directory contains no links), fsl_only_not_found / pkg_only_not_found (the only exception is TemplateNotFoundError — ENAMETOOLONG, NUL, unencodable names, symlink loops included) hold for every name string and every finite file system; the pre-fix code is kept as Old.* with kernel-decided counter-examples (absolute name escapes the package, '' raises ValueError, a 256-byte name raises OSError).",
     "note": "Trusted: Lean kernel (axioms propext/Classical.choice/Quot.sound only), the hand model of pathlib 3.12 and of the kernel path walk (sampled by the pathlib and fsprim streams), the correspondence harness; no TOCTOU; PackageLoader only for file-system packages. Four fix: commits in the tree under test (FSL ENAMETOOLONG, PackageLoader absolute / empty name / ENAMETOOLONG).",
 }
 
@@ -613,7 +617,7 @@ class LoaderStream(Stream):
 class FslStream(LoaderStream):
     name = "fsl"
     kind = "fsl"
-    sizes = (180, 2000)
+    sizes = (150, 2000)
 
     def gen_case(self, rng, i):
         tg = TreeGen(rng)
@@ -1049,7 +1053,7 @@ class CacheStream(Stream):
         self.parallel = ctx.tier == "thorough"
         rng = ctx.rng_for("cache")
         out = []
-        for _ in range(ctx.scale(70, 1000)):
+        for _ in range(ctx.scale(50, 1000)):
             nid = [1]
 
             def f(t=None):
